@@ -138,7 +138,8 @@ class PfWorld(World):
 
     # ------------------------------------------------------------------
     def gen_op(self, rng, frng):
-        w = {"load": 4, "solve": 5, "save_iter": 3 if self.solved else 0, "set_iter": 0.8 if self.saved else 0, "splits": 1.5, "psiP_read": 0.5 if self.solved else 0}
+        w = {"load": 4, "solve": 5, "save_iter": 3 if self.solved else 0, "set_iter": 0.8 if self.saved else 0, "splits": 1.5, "psiP_read": 0.5 if self.solved else 0,
+             "material": 0.8 if self.p.get("material", "iso") in ("iso", "trans") else 0}
         names = sorted(w)
         pr = np.array([w[k] for k in names], dtype=float)
         name = names[int(rng.choice(len(names), p=pr / pr.sum()))]
@@ -152,6 +153,11 @@ class PfWorld(World):
                     op["pattern2"] = int(rng.integers(8))
                 if op["mode"] == "homog":
                     op["pattern"] = int(rng.integers(8))
+        elif name == "material":
+            mat = self.p.get("material", "iso")
+            pn = (["E", "v"] + (["planeStress"] if self.p.get("dim", 2) == 2 else []))[int(rng.integers(3 if self.p.get("dim", 2) == 2 else 2))] if mat == "iso" else ["El", "planeStress"][int(rng.integers(2))]
+            val = {"E": float(np.round(10 ** rng.uniform(1, 3), 3)), "El": float(np.round(self.p["E"] * rng.uniform(0.6, 2.0), 3)), "v": float(np.round(rng.uniform(0.0, 0.4), 3)), "planeStress": bool(rng.integers(2))}[pn]
+            op.update(name=pn, val=val)
         elif name == "solve":
             op.update(tolConv=[1.0, 0.5, 1e-1, 1e-2][int(rng.integers(4))], maxIter=int(rng.integers(2, 12)), convOption=int(rng.integers(0, 4)))
             if self.cfg.get("faults") and frng.random() < 0.3:
@@ -393,6 +399,19 @@ class PfWorld(World):
 
         if name == "splits":
             self._check_splits("splits")
+            return "ok"
+
+        if name == "material":
+            # the material of the model is modified in place and then *read* by the caller (a script printing the new law)
+            # before the model evaluates its split again
+            mat = self.model.material
+            if not hasattr(mat, op["name"]):
+                return "skip"
+            with ctx.sut():
+                setattr(mat, op["name"], op["val"])
+                _ = mat.C
+            ctx.probe("material_written_then_read")
+            self._check_splits("after a material write and a read of the law")
             return "ok"
 
         if name == "psiP_read":
